@@ -12,13 +12,13 @@ int main() {
     uint32_t sd[2] = {3, 4}; tfhe_random_generator_setSeed(sd, 2);
     for (int s = 0; s < 6; s++) { tp[s] = new_TLweParams(N, sets[s][0], 1e-9, 0.1); gp[s] = new_TGswParams(sets[s][1], sets[s][2], tp[s]); key[s] = new_TGswKey(gp[s]); tGswKeyGen(key[s]); }
     // TLWE: constant and polynomial messages on the grid k/Msize, fresh encryptions with small noise and noiseless trivial samples
-    for (int s = 0; s < 6; s++) for (int Msize : {2, 3, 8, 1000}) {
+    for (int s = 0; s < 6; s++) for (int Msize : {2, 3, 6, 7, 8, 12, 1000}) {
         const TLweKey *tk = &key[s]->tlwe_key; TLweSample *c = new_TLweSample(tp[s]); TorusPolynomial *mu = new_TorusPolynomial(N), *out = new_TorusPolynomial(N);
         for (int j = 0; j < N; j++) mu->coefsT[j] = modSwitchToTorus32((j * 5 + s) % Msize, Msize);
         tLweSymEncrypt(c, mu, 1e-9, tk); tLweSymDecrypt(out, c, tk, Msize);
         for (int j = 0; j < N; j++) if (out->coefsT[j] != mu->coefsT[j]) { printf("TLWE k=%d Msize=%d: coefficient %d of a fresh encryption decrypts to %d, message %d\n", sets[s][0], Msize, j, out->coefsT[j], mu->coefsT[j]); return 1; }
-        Torus32 m1 = modSwitchToTorus32(1 % Msize, Msize); tLweSymEncryptT(c, m1, 1e-9, tk);
-        if (tLweSymDecryptT(c, tk, Msize) != m1) { printf("TLWE k=%d Msize=%d: constant message does not decrypt to itself\n", sets[s][0], Msize); return 1; }
+        for (int m = 0; m < Msize && m < 16; m++) { Torus32 m1 = modSwitchToTorus32(Msize > 16 ? (m * 61 + 1) % Msize : m, Msize); tLweSymEncryptT(c, m1, 1e-9, tk);
+            if (tLweSymDecryptT(c, tk, Msize) != m1) { printf("TLWE k=%d Msize=%d: constant message %d does not decrypt to itself\n", sets[s][0], Msize, m1); return 1; } }
         tLweNoiselessTrivial(c, mu, tp[s]); tLweSymDecrypt(out, c, tk, Msize);
         for (int j = 0; j < N; j++) if (out->coefsT[j] != mu->coefsT[j]) { printf("TLWE k=%d Msize=%d: noiseless trivial sample, coefficient %d decrypts to %d, message %d\n", sets[s][0], Msize, j, out->coefsT[j], mu->coefsT[j]); return 1; }
         delete_TLweSample(c); delete_TorusPolynomial(mu); delete_TorusPolynomial(out);
